@@ -45,14 +45,43 @@ fn main() {
                 eprintln!("unknown property {id}");
                 std::process::exit(2);
             };
-            let run = Run::new(&id, tier, entry.level);
-            (entry.run)(&run);
+            let run: &'static Run = Box::leak(Box::new(Run::new(&id, tier, entry.level)));
+            let limit = std::env::var("VERIF_HANG_SECS").ok().and_then(|s| s.parse().ok()).unwrap_or(30);
+            run.start_watchdog(limit);
+            (entry.run)(run);
             std::process::exit(run.finish());
         }
         "replay" => {
             if args.len() < 4 {
                 usage();
             }
+            // The replay itself runs in a child process under a deadline, so that a case that
+            // hangs the code under test is reported instead of hanging the replay.
+            let exe = std::env::current_exe().expect("current exe");
+            let mut child = std::process::Command::new(exe)
+                .arg("replay-inner")
+                .arg(&args[2])
+                .arg(&args[3])
+                .spawn()
+                .expect("spawn replay");
+            let deadline = std::time::Instant::now() + std::time::Duration::from_secs(120);
+            loop {
+                match child.try_wait() {
+                    Ok(Some(status)) => std::process::exit(status.code().unwrap_or(2)),
+                    Ok(None) => {
+                        if std::time::Instant::now() > deadline {
+                            let _ = child.kill();
+                            println!("VIOLATION property={} replay={}", args[2], args[3]);
+                            println!("  observed: the code under test did not return within 120 s on this case");
+                            std::process::exit(1);
+                        }
+                        std::thread::sleep(std::time::Duration::from_millis(20));
+                    }
+                    Err(_) => std::process::exit(2),
+                }
+            }
+        }
+        "replay-inner" => {
             let id = args[2].clone();
             let Some(entry) = props::lookup(&id) else {
                 eprintln!("unknown property {id}");
